@@ -11,7 +11,7 @@ N = {"quick": 1800, "thorough": 60000}
 LEVEL_RULE = ("content cases: sequence + sequence (or simultaneity as right operand), and concatenation of two simultaneities of "
               "sequences by index / by tag (0-3 voices each, tags unique / repeated / missing, nested simultaneities as voices, "
               "leaf voices as malformed stream), all tempi default; history stream (15 % of the content cases): 2-4 joins on ONE simultaneity with tagged voices replaced / removed in between, compared step by step; tempo cases: two one-voice operands whose tempi are constant "
-              "or 2-4 point trajectories shorter / equal / longer than the event, joined by +, by index and by tag; the result's "
+              "or 2-4 point trajectories shorter / equal / longer than the event (8 % with an empty first operand), joined by +, by index and by tag; the result's "
               "tempo is compared with the model and, on a 26-point grid, with the operands' tempi. "
               "non-trivial = voice counts differ or a trajectory length differs from the event length")
 ASSUMPTIONS = ["content: NoSharing, tick-exact durations (as C01-C06); tempo: as C08-C11 (real-number theorems, float correspondence)",
@@ -47,6 +47,8 @@ def gen(seed, index):
         kind = rng.choice(["add", "add", "index", "index", "tag", "tag", "topindex"])
         unit = rng.choice([2500000000, 10000000000, 5000000000])
         da, db = rng.randint(1, 6) * unit, rng.randint(1, 6) * unit
+        if rng.random() < 0.08:
+            da = 0          # an empty first operand (or one holding only zero-length events) that still carries a tempo
 
         def tempo(d):
             if rng.random() < 0.4:
